@@ -49,6 +49,9 @@ func c12Gen(r *driver.Rand, thorough bool) *driver.Plan {
 	if r.Chance(1, 8) {
 		p.SetX("uses", 2)
 	}
+	if k > 0 && r.Chance(1, 10) {
+		p.SetX("dup_input", 1) // the first input is passed to Join twice
+	}
 	return p
 }
 
@@ -62,7 +65,7 @@ func c12Enum(thorough bool) []*driver.Plan {
 	for _, lens := range shapes {
 		for _, c := range []int{0, 1, 3} {
 			for _, pol := range basePolicies {
-				for variant := 0; variant < 3; variant++ {
+				for variant := 0; variant < 4; variant++ {
 					p := c12Plan(lens, []int{c})
 					p.Policy, p.Budget = pol, 4000
 					switch variant {
@@ -70,6 +73,11 @@ func c12Enum(thorough bool) []*driver.Plan {
 						if len(lens) > 0 {
 							p.Producers[len(lens)-1].CloseMs = 100
 						}
+					case 3: // the first input is passed twice
+						if len(lens) == 0 {
+							continue
+						}
+						p.SetX("dup_input", 1)
 					case 2: // slow consumer
 						p.Consumers[0].StartMs = 30
 						p.Consumers[0].DelaysMs = []int{5}
@@ -124,6 +132,14 @@ func c12Final(e *driver.Env) {
 				if v/1000 == i {
 					got = append(got, v)
 				}
+			}
+			if p.X("dup_input") == 1 && i == 0 {
+				if !sameMultiset(got, in) {
+					e.Failf("C12.a", "Join lost or duplicated elements of an input that was passed twice",
+						"input %d is %v, delivered from it %v", i, in, got)
+					return
+				}
+				continue
 			}
 			if !eqInts(got, in) {
 				e.Failf("C12.a", "Join lost, duplicated or reordered elements of one input",
